@@ -304,8 +304,24 @@ func resultDependsOn(p *Program, fn *ssa.Function, prm *ssa.Parameter, idx int) 
 		work = work[:len(work)-1]
 		for _, r := range referrers(v) {
 			if x, ok := r.(ssa.Value); ok && !t[x] {
-				switch r.(type) {
-				case *ssa.Phi, *ssa.BinOp, *ssa.UnOp, *ssa.Slice, *ssa.Extract, *ssa.Convert, *ssa.Call:
+				switch y := r.(type) {
+				case *ssa.Extract:
+					if call, ok := y.Tuple.(*ssa.Call); ok {
+						if cal := call.Call.StaticCallee(); cal != nil && p.inModule(cal) && cal.Blocks != nil && cal != fn {
+							dep := false
+							for k, a := range call.Call.Args {
+								if t[a] && k < len(cal.Params) && resultDependsOn(p, cal, cal.Params[k], y.Index) {
+									dep = true
+								}
+							}
+							if !dep {
+								continue
+							}
+						}
+					}
+					t[x] = true
+					work = append(work, x)
+				case *ssa.Phi, *ssa.BinOp, *ssa.UnOp, *ssa.Slice, *ssa.Convert, *ssa.Call:
 					t[x] = true
 					work = append(work, x)
 				}
@@ -394,20 +410,56 @@ func ruleC01c(c *Ctx) {
 	name := p.fname(m)
 	taint := contentTaint(p, m, tokens)
 	n := 0
-	for _, b := range m.Blocks {
-		iff, ok := b.Instrs[len(b.Instrs)-1].(*ssa.If)
-		if !ok || !taint[condRoot(iff.Cond)] {
-			continue
+	type unit struct {
+		fn    *ssa.Function
+		taint map[ssa.Value]bool
+	}
+	units := []unit{{m, taint}}
+	// helpers the matcher hands request-token content to (one level of extraction), when their first result is a verdict
+	seenH := map[*ssa.Function]bool{m: true}
+	eachInstr(m, func(i ssa.Instruction) {
+		call, ok := i.(*ssa.Call)
+		if !ok || call.Call.StaticCallee() == nil || !p.inModule(call.Call.StaticCallee()) || seenH[call.Call.StaticCallee()] {
+			return
 		}
-		n++
-		rT, retT := canReachPositive(b.Succs[0], b)
-		rF, retF := canReachPositive(b.Succs[1], b)
-		construct := "request-token test " + condDesc(p, condRoot(iff.Cond))
-		if rT && rF {
-			c.bad(name, construct+" enforces nothing", p.ipos(iff),
-				"both outcomes of this comparison can still lead to a positive answer (e.g. "+p.ipos(retT)+" and "+p.ipos(retF)+"): a request token that fails the comparison is admitted")
-		} else {
-			c.ok(name, construct+" has a failing edge", p.ipos(iff), "one outcome cannot reach a positive answer")
+		h := call.Call.StaticCallee()
+		res := h.Signature.Results()
+		if res.Len() == 0 || h.Blocks == nil || len(h.Blocks) < 3 {
+			return
+		}
+		if b, ok := res.At(0).Type().Underlying().(*types.Basic); !ok || b.Kind() != types.Bool {
+			return
+		}
+		ht := map[ssa.Value]bool{}
+		for k, a := range call.Call.Args {
+			if taint[a] && k < len(h.Params) {
+				for v := range valueTaint(p, h, h.Params[k]) {
+					ht[v] = true
+				}
+			}
+		}
+		if len(ht) > 0 {
+			seenH[h] = true
+			units = append(units, unit{h, ht})
+		}
+	})
+	for _, u := range units {
+		uname := p.fname(u.fn)
+		for _, b := range u.fn.Blocks {
+			iff, ok := b.Instrs[len(b.Instrs)-1].(*ssa.If)
+			if !ok || !u.taint[condRoot(iff.Cond)] {
+				continue
+			}
+			n++
+			rT, retT := canReachPositive(b.Succs[0], b)
+			rF, retF := canReachPositive(b.Succs[1], b)
+			construct := "request-token test " + condDesc(p, condRoot(iff.Cond))
+			if rT && rF {
+				c.bad(uname, construct+" enforces nothing", p.ipos(iff),
+					"both outcomes of this comparison can still lead to a positive answer (e.g. "+p.ipos(retT)+" and "+p.ipos(retF)+"): a request token that fails the comparison is admitted")
+			} else {
+				c.ok(uname, construct+" has a failing edge", p.ipos(iff), "one outcome cannot reach a positive answer")
+			}
 		}
 	}
 	c.count("content_tests", n)
@@ -615,15 +667,30 @@ func ruleC01d(c *Ctx) {
 	})
 	if slices {
 		verifies := false
+		scan := func(fn *ssa.Function, taint map[ssa.Value]bool) {
+			eachInstr(fn, func(i ssa.Instruction) {
+				call, ok := i.(*ssa.Call)
+				if !ok {
+					return
+				}
+				n := calleeName(&call.Call)
+				if (n == "strings.HasSuffix" || n == "strings.HasPrefix") && taint[call.Call.Args[0]] {
+					if _, isSlice := strip(call.Call.Args[1]).(*ssa.Slice); isSlice {
+						verifies = true
+					}
+				}
+			})
+		}
+		scan(m, mTaint)
 		eachInstr(m, func(i ssa.Instruction) {
 			call, ok := i.(*ssa.Call)
-			if !ok {
+			if !ok || call.Call.StaticCallee() == nil || !p.inModule(call.Call.StaticCallee()) || call.Call.StaticCallee().Blocks == nil {
 				return
 			}
-			n := calleeName(&call.Call)
-			if (n == "strings.HasSuffix" || n == "strings.HasPrefix") && mTaint[call.Call.Args[0]] {
-				if _, isSlice := strip(call.Call.Args[1]).(*ssa.Slice); isSlice {
-					verifies = true
+			h := call.Call.StaticCallee()
+			for k, a := range call.Call.Args {
+				if mTaint[a] && k < len(h.Params) {
+					scan(h, valueTaint(p, h, h.Params[k]))
 				}
 			}
 		})
@@ -633,21 +700,7 @@ func ruleC01d(c *Ctx) {
 		c.note(p.fname(binder), "binder does not slice values", "-", "no affix handling")
 	}
 	// (3) the root scorer enforces the regex the route matcher enforces
-	regexHelper := func(fn *ssa.Function) *ssa.Function {
-		var out *ssa.Function
-		for _, e := range p.callGraph().Out[fn] {
-			uses := false
-			eachInstr(e.Callee, func(i ssa.Instruction) {
-				if isCallTo(i, "regexp.MatchString") {
-					uses = true
-				}
-			})
-			if uses {
-				out = e.Callee
-			}
-		}
-		return out
-	}
+	regexHelper := func(fn *ssa.Function) *ssa.Function { return regexHelperOf(p, fn) }
 	rh := regexHelper(m)
 	// the root scorer: the function applied to WebService.pathExpr.tokens by the Curly router
 	var scorer *ssa.Function
@@ -670,4 +723,64 @@ func ruleC01d(c *Ctx) {
 	} else {
 		c.undecided("-", "regex enforcement in matcher and root scorer", "-", "cannot find the regex helper or the root scorer")
 	}
+}
+
+// valueTaint: values of fn data-dependent on the content of v (a string parameter), like contentTaint.
+func valueTaint(p *Program, fn *ssa.Function, src ssa.Value) map[ssa.Value]bool {
+	t := map[ssa.Value]bool{src: true}
+	work := []ssa.Value{src}
+	for len(work) > 0 {
+		v := work[len(work)-1]
+		work = work[:len(work)-1]
+		for _, r := range referrers(v) {
+			x, ok := r.(ssa.Value)
+			if !ok || t[x] {
+				continue
+			}
+			switch y := r.(type) {
+			case *ssa.Extract:
+				if call, ok := y.Tuple.(*ssa.Call); ok {
+					if cal := call.Call.StaticCallee(); cal != nil && p.inModule(cal) && cal.Blocks != nil && cal != fn {
+						dep := false
+						for k, a := range call.Call.Args {
+							if t[a] && k < len(cal.Params) && resultDependsOn(p, cal, cal.Params[k], y.Index) {
+								dep = true
+							}
+						}
+						if !dep {
+							continue
+						}
+					}
+				}
+				t[x] = true
+				work = append(work, x)
+			case *ssa.Phi, *ssa.BinOp, *ssa.UnOp, *ssa.Slice, *ssa.Convert:
+				t[x] = true
+				work = append(work, x)
+			case *ssa.Call:
+				if b, isB := y.Call.Value.(*ssa.Builtin); isB && b.Name() == "len" {
+					continue
+				}
+				t[x] = true
+				work = append(work, x)
+			}
+		}
+	}
+	return t
+}
+
+// regexHelperOf: the module function reachable from fn (static calls) that applies regexp.MatchString.
+func regexHelperOf(p *Program, fn *ssa.Function) *ssa.Function {
+	var out *ssa.Function
+	for f := range p.callGraph().reach([]*ssa.Function{fn}, func(e Edge) bool { return e.Kind != EdgeStatic }) {
+		if f == fn {
+			continue
+		}
+		eachInstr(f, func(i ssa.Instruction) {
+			if isCallTo(i, "regexp.MatchString") {
+				out = f
+			}
+		})
+	}
+	return out
 }
